@@ -116,3 +116,20 @@ pub proof fn lemma_u16_bytes_inj(v: u16, w: u16)
 {
     assert((v == w) <==> ((v & 0xff) as u8 == (w & 0xff) as u8 && ((v >> 8) & 0xff) as u8 == ((w >> 8) & 0xff) as u8)) by(bit_vector);
 }
+
+pub assume_specification<T>[ <*const T>::offset ](p: *const T, n: isize) -> (r: *const T)
+    requires inb(addr(p) + n * core::mem::size_of::<T>())
+    ensures addr(r) == addr(p) + n * core::mem::size_of::<T>();
+
+pub broadcast axiom fn val_bytes_usize(v: usize)
+    ensures (#[trigger] val_bytes::<usize>(v)).len() == 8,
+        forall|k: int| 0 <= k < 8 ==> val_bytes::<usize>(v)[k] == (((v as u64) >> ((8 * k) as u64)) & 0xff) as u8;
+pub broadcast proof fn sz_usize()
+    ensures #[trigger] core::mem::size_of::<usize>() == 8,
+{}
+pub broadcast axiom fn align_usize()
+    ensures #[trigger] core::mem::align_of::<usize>() == 8;
+
+pub assume_specification<T, U, F: FnOnce(T) -> U>[ Option::<T>::map_or ](x: Option<T>, default: U, f: F) -> (r: U)
+    requires x matches Some(v) ==> f.requires((v,)),
+    ensures match x { Some(v) => f.ensures((v,), r), None => r == default };
